@@ -2,10 +2,13 @@ import Nervus.Driver.Util
 import Nervus.Driver.Agg
 import Nervus.Driver.BTree
 import Nervus.Driver.Backup
+import Nervus.Driver.Bulk
 import Nervus.Driver.CapiSched
 import Nervus.Driver.Codec
 import Nervus.Driver.Cypher
+import Nervus.Driver.Cypher14
 import Nervus.Driver.CypherUpdate
+import Nervus.Driver.Engine
 import Nervus.Driver.Handles
 import Nervus.Driver.Hnsw
 import Nervus.Driver.Index
@@ -44,21 +47,12 @@ def streams : List (String × Stream) := ([] : List (String × Stream))
   |>.cons ("agg", AggStream.stream)
   |>.cons ("index", IndexStream.stream)
   |>.cons ("hnsw", HnswStream.stream)
-import Nervus.Driver.Engine
-import Nervus.Driver.Bulk
-import Nervus.Driver.Cypher14
-open Nervus.Driver
-
-/-- stream registry: one line per stream (kept one-per-line so that merges are unions) -/
-def streams : List (String × Stream) := [
-  ("okey", OKeyStream.stream),
-  ("engine", EngineStream.stream),
-  ("engine_reopen", EngineStream.streamReopen),
-  ("engine_compact", EngineStream.streamCompact),
-  ("engine_abort", EngineStream.streamAbort),
-  ("bulk", BulkStream.stream),
-  ("cypher14", Cypher14.stream)
-]
+  |>.cons ("engine", EngineStream.stream)
+  |>.cons ("engine_reopen", EngineStream.streamReopen)
+  |>.cons ("engine_compact", EngineStream.streamCompact)
+  |>.cons ("engine_abort", EngineStream.streamAbort)
+  |>.cons ("bulk", BulkStream.stream)
+  |>.cons ("cypher14", Cypher14.stream)
 
 def main (args : List String) : IO UInt32 := do
   match args with
